@@ -67,6 +67,20 @@ func (l *Linter) lintBlockStatement(block *ast.BlockStatement, ctx *context.Cont
 	l.ignore.SetupBlockStatement(block.GetMeta())
 	defer l.ignore.TeardownBlockStatement(block.GetMeta())
 
+	// The statements of a module included from this block are linted one include level deeper,
+	// so that a module which includes itself from inside one of its blocks reaches the depth limit
+	hasInclude := false
+	for _, stmt := range block.Statements {
+		if _, ok := stmt.(*ast.IncludeStatement); ok {
+			hasInclude = true
+			break
+		}
+	}
+	if hasInclude {
+		l.includeDepth++
+		defer func() { l.includeDepth-- }()
+	}
+
 	statements := l.resolveIncludeStatements(block.Statements, ctx, false)
 	for _, stmt := range statements {
 		func(v ast.Statement, c *context.Context) {
